@@ -33,11 +33,12 @@ Theorem C02_loop_capture_all :
     List.concat (lo_buf (handle_output_inc e hide DInit script [])) = decode_all e (stream_bytes script).
 Proof. exact inc_capture_all. Qed.
 
+(* (near-definitional: the loop writes under [if hide then ... else ...]; the content is in the shape lemma) *)
 Theorem C02_hidden_receives_nothing :
   forall e script st buf, lo_writes (handle_output_inc e true st script buf) = [].
 Proof. exact inc_writes_hidden. Qed.
 
-(** piece by piece, in the same order *)
+(** piece by piece, in the same order (near-definitional, from the shape lemma) *)
 Theorem C02_mirror_equals_capture :
   forall e script,
     lo_writes (handle_output_inc e false DInit script []) = lo_buf (handle_output_inc e false DInit script []).
